@@ -631,7 +631,7 @@ func RunC06(tier string, seed int64) int {
 		n, ne = 120000, 1500
 	}
 	obs := &c06obs{}
-	common.ParallelFor(n, runtime.NumCPU(), func(i int) { c06History(ctx, run, obs, i) })
+	common.QuietFirst(n, 40, runtime.NumCPU(), func(i int) { c06History(ctx, run, obs, i) })
 	common.ParallelFor(ne, 8, func(i int) { c06EndToEnd(ctx, run, obs, i) })
 	run.Extra("observed", map[string]int64{"histories": obs.histories, "operations_recorded": obs.ops, "per_txid_histories_linearizable": obs.linOK,
 		"porcupine_timeouts": obs.linUnknown, "grants_observed": obs.grants, "txs_delivered": obs.delivered, "bounded_retry_polls": obs.retryPolls, "end_to_end_runs": obs.e2e})
